@@ -220,24 +220,12 @@ class Ctx:
 
     def prove_static(self, rel: str, theorems=None, timeout=900):
         """Re-check a static property file (coq/Props/...) whose dependencies were built by
-        setup.sh; output goes to build/<pid>/ so the shared tree is not touched."""
+        setup.sh: the file is copied to build/<pid>/ and compiled there (so the shared tree is not
+        touched), one obligation per Theorem, Print Assumptions collected."""
         src = COQ / rel
-        txt = coq_comment_strip(src.read_text())
-        names = theorems or re.findall(r"^\s*(?:Theorem|Corollary)\s+([A-Za-z0-9_']+)", txt, re.M)
-        probs = audit_coq_sources([src])
-        out_vo = self.build / (src.stem + "_static.vo")
-        cmd = ["coqc", "-q", "-Q", str(COQ), "Bermuda", "-o", str(out_vo), str(src)]
-        self.checker_cmds.append(" ".join(cmd))
-        rc, out = sh(cmd, timeout=timeout, cwd=self.build)
-        ok = rc == 0 and not probs
-        assum = parse_print_assumptions(
-            out, re.findall(r"Print\s+Assumptions\s+([A-Za-z0-9_'.]+)\s*\.", txt)
-        )
-        for n in names:
-            self.obligation(f"{src.name}:{n}", ok, "" if ok else out[-1200:] + "\n".join(probs), assum.get(n))
-        if not ok:
-            self.log(f"static property file {rel} FAILED:\n{out[-1500:]}" + "\n".join(probs))
-        return ok, out
+        dst = self.build / (src.stem + "_static.v")
+        dst.write_text(src.read_text())
+        return self.prove(dst, theorems=theorems, timeout=timeout)
 
     def audit_tree(self, rels):
         """Forbidden-construct audit over static files (relative to coq/); failing = obligation."""
